@@ -158,6 +158,20 @@ func VerifC10Conc() {
 			differ = true
 		}
 	}
+	if n == 2 {
+		// a request is rejected only when honouring the spacing would exceed the limit: a caller that arrives a full
+		// interval after the last pass is admitted when the only other caller is one that has to be rejected
+		// (alone it would have to wait longer than the limit), whatever the interleaving
+		for i := 0; i < 2; i++ {
+			o := 1 - i
+			dueI := res[i].now >= last+iv
+			rejO := res[o].now < last+iv && last+iv-res[o].now > maxq
+			if dueI && rejO {
+				rt.Reach("c10.due-vs-rejected")
+				rt.Assert(res[i].admitted, "a request that is due is admitted although a concurrent request has to be rejected")
+			}
+		}
+	}
 	for i := 0; i < n; i++ {
 		if res[i].admitted {
 			rt.Assert(res[i].wait >= 0 && res[i].wait <= maxq, "no admitted request is asked to wait longer than the maximum queueing time")
